@@ -82,6 +82,44 @@ pub enum TOp {
     Trigger { kind: u8, v: u8 },
     TriggerNoop { kind: u8, v: u8 },
     Bump,
+    /// `n` triggers of the same value in a row (`trigger(v).await` when
+    /// `sync` is false, `trigger_noop(v)` when true) with nothing else in
+    /// between: the number of reports that pile up on a barrier before the
+    /// test collects them is a dimension of its own.  The interpreter
+    /// expands a burst into `n` single steps (see `flatten`), so the model,
+    /// the progress counters and the identities (`op` = index in the
+    /// expanded script) treat every trigger of a burst individually.
+    Burst { kind: u8, v: u8, n: u16, sync: bool },
+}
+
+/// Upper bounds applied by the interpreter (replayed / fuzzed scenarios may
+/// carry anything): one burst, and one task's expanded script.
+const MAX_BURST: usize = 12_000;
+const MAX_FLAT: usize = 40_000;
+
+/// Expand bursts into single trigger steps.
+fn flatten(ops: &[TOp]) -> Vec<TOp> {
+    let mut flat = Vec::new();
+    for op in ops {
+        match *op {
+            TOp::Burst { kind, v, n, sync } => {
+                let n = (n as usize).min(MAX_BURST).min(MAX_FLAT.saturating_sub(flat.len()));
+                for _ in 0..n {
+                    flat.push(if sync {
+                        TOp::TriggerNoop { kind, v }
+                    } else {
+                        TOp::Trigger { kind, v }
+                    });
+                }
+            }
+            ref o => {
+                if flat.len() < MAX_FLAT {
+                    flat.push(o.clone())
+                }
+            }
+        }
+    }
+    flat
 }
 
 #[derive(Clone, Debug, Serialize, Deserialize)]
@@ -102,6 +140,10 @@ pub enum Act {
     DropBarrier { which: u16, drain: bool },
     /// drop a task's future (task cancellation)
     Kill(u16),
+    /// collect ALL reports queued on one live barrier: poll `wait()` until
+    /// it is Pending, comparing every report with the model; the barrier
+    /// stays live
+    Drain(u16),
 }
 
 #[derive(Clone, Debug, Serialize, Deserialize)]
@@ -266,6 +308,7 @@ async fn task_body(id: usize, ops: Vec<TOp>, log: Rc<TaskLog>) {
                 }
             }
             TOp::Bump => log.bumps.set(log.bumps.get() + 1),
+            TOp::Burst { .. } => unreachable!("bursts are expanded by flatten()"),
         }
         log.done.set(k + 1);
     }
@@ -386,7 +429,17 @@ struct Stats {
     spurious_polls: u32,
     kills: u32,
     noop_sync: u32,
+    /// largest number of uncollected reports on one barrier
+    max_queue: u32,
+    /// deliveries (async / sync) onto a barrier that already held >= 1024
+    /// uncollected reports
+    deep_async: u32,
+    deep_sync: u32,
+    drains: u32,
 }
+
+/// Depth from which a queue counts as "deep" for the class labels.
+const DEEP: usize = 1024;
 
 struct Model {
     barriers: Vec<MBarrier>,
@@ -396,6 +449,13 @@ struct Model {
 }
 
 impl Model {
+    fn note_depth(&mut self, b: usize) {
+        let d = self.barriers[b].queue.len() as u32;
+        if d > self.st.max_queue {
+            self.st.max_queue = d;
+        }
+    }
+
     /// earliest-created live barrier of the right type whose set holds `v`
     fn lookup(&mut self, kind: u8, v: u8) -> Option<usize> {
         let mut first = None;
@@ -484,19 +544,27 @@ impl Model {
                         }
                         Some(b) => match self.barriers[b].react {
                             React::Noop => {
+                                if self.barriers[b].queue.len() >= DEEP {
+                                    self.st.deep_async += 1;
+                                }
                                 self.barriers[b].queue.push_back(MEntry {
                                     ident,
                                     suspends: false,
                                 });
+                                self.note_depth(b);
                                 self.st.delivered += 1;
                                 self.tasks[i].dec[pc] = Some(Dec::Noop);
                                 self.tasks[i].pc += 1;
                             }
                             React::Suspend => {
+                                if self.barriers[b].queue.len() >= DEEP {
+                                    self.st.deep_async += 1;
+                                }
                                 self.barriers[b].queue.push_back(MEntry {
                                     ident,
                                     suspends: true,
                                 });
+                                self.note_depth(b);
                                 self.st.delivered += 1;
                                 self.st.suspends += 1;
                                 self.tasks[i].dec[pc] = Some(Dec::Suspend);
@@ -516,6 +584,7 @@ impl Model {
                         },
                     }
                 }
+                TOp::Burst { .. } => unreachable!("bursts are expanded by flatten()"),
                 TOp::TriggerNoop { kind, v } => {
                     let ident = Ident {
                         kind,
@@ -530,10 +599,14 @@ impl Model {
                         }
                         Some(b) => match self.barriers[b].react {
                             React::Noop => {
+                                if self.barriers[b].queue.len() >= DEEP {
+                                    self.st.deep_sync += 1;
+                                }
                                 self.barriers[b].queue.push_back(MEntry {
                                     ident,
                                     suspends: false,
                                 });
+                                self.note_depth(b);
                                 self.st.delivered += 1;
                                 self.st.noop_sync += 1;
                                 self.tasks[i].dec[pc] = Some(Dec::Noop);
@@ -565,8 +638,16 @@ impl Model {
 
 type Fail = (String, String);
 
+/// First entries of a model queue (queues can hold thousands of entries).
+fn qhead(q: &VecDeque<MEntry>) -> String {
+    let head: Vec<&Ident> = q.iter().take(6).map(|e| &e.ident).collect();
+    format!("(len {}) first {:?}", q.len(), head)
+}
+
 struct World<'a> {
     sc: &'a Scenario,
+    /// the tasks' scripts with bursts expanded (what the tasks and the model run)
+    flat: Rc<Vec<Vec<TOp>>>,
     // field order = drop order: handles, tasks, then barriers
     handles: Vec<RealHandle>,
     tasks: Vec<RealTask>,
@@ -576,8 +657,8 @@ struct World<'a> {
 
 impl<'a> World<'a> {
     fn new(sc: &'a Scenario) -> Self {
-        let tasks = sc
-            .tasks
+        let flat: Rc<Vec<Vec<TOp>>> = Rc::new(sc.tasks.iter().map(|ops| flatten(ops)).collect());
+        let tasks = flat
             .iter()
             .enumerate()
             .map(|(i, ops)| {
@@ -590,8 +671,7 @@ impl<'a> World<'a> {
                 }
             })
             .collect();
-        let mtasks = sc
-            .tasks
+        let mtasks = flat
             .iter()
             .map(|ops| MTask {
                 pc: 0,
@@ -602,6 +682,7 @@ impl<'a> World<'a> {
             .collect();
         World {
             sc,
+            flat,
             handles: Vec::new(),
             tasks,
             live: Vec::new(),
@@ -621,7 +702,9 @@ impl<'a> World<'a> {
     }
 
     fn poll_task(&mut self, i: usize) -> Result<(), Fail> {
-        let ops = &self.sc.tasks[i];
+        let flat = self.flat.clone();
+        let ops: &[TOp] = &flat[i];
+        let script = &self.sc.tasks[i];
         let before_done = self.tasks[i].log.done.get();
         // ---- real
         let polled = {
@@ -656,8 +739,8 @@ impl<'a> World<'a> {
         let mt = &self.m.tasks[i];
         let ctx = |what: &str| {
             format!(
-                "task {i} ops {ops:?}: {what}; real: ops completed {real_done}, started {real_started}, bumps {real_bumps}; model: ops completed {}, bumps {}, state before poll {was:?}",
-                mt.pc, mt.bumps
+                "task {i} script {script:?} ({} steps with bursts expanded; step numbers below count expanded steps): {what}; real: steps completed {real_done}, started {real_started}, bumps {real_bumps}; model: steps completed {}, bumps {}, state before poll {was:?}",
+                ops.len(), mt.pc, mt.bumps
             )
         };
         // ---- compare progress first (most specific signatures)
@@ -771,13 +854,18 @@ impl<'a> World<'a> {
         let mut cx = Context::from_waker(&waker);
         let r = rb.slot.poll_wait_any(&mut cx);
         rb.mark = wakes(&rb.waker);
+        // only needed to word a failure: skip the search when the report is
+        // the one the model expects (queues can hold thousands of entries)
         let elsewhere = match &r {
-            Poll::Ready(Some((id, _))) => self
-                .m
-                .barriers
-                .iter()
-                .enumerate()
-                .position(|(k, b)| k != mid && b.queue.iter().any(|e| e.ident == *id)),
+            Poll::Ready(Some((id, _)))
+                if self.m.barriers[mid].queue.front().map(|f| &f.ident) != Some(id) =>
+            {
+                self.m
+                    .barriers
+                    .iter()
+                    .enumerate()
+                    .position(|(k, b)| k != mid && b.queue.iter().any(|e| e.ident == *id))
+            }
             _ => None,
         };
         let mb = &mut self.m.barriers[mid];
@@ -801,7 +889,7 @@ impl<'a> World<'a> {
             }
             Poll::Ready(None) => Err((
                 "wait: returned None on a live barrier".into(),
-                format!("barrier #{mid}: model queue {:?}", mb.queue),
+                format!("barrier #{mid}: model queue {}", qhead(&mb.queue)),
             )),
             Poll::Ready(Some((id, h))) => {
                 // keep the handle alive (RAII) whatever the verdict is
@@ -839,8 +927,9 @@ impl<'a> World<'a> {
                     return Err((
                         sig.into(),
                         format!(
-                            "barrier #{mid}: reported {id:?}, model expected {:?}, rest of model queue {:?}",
-                            front.ident, mb.queue
+                            "barrier #{mid}: reported {id:?}, model expected {:?}, rest of model queue {}",
+                            front.ident,
+                            qhead(&mb.queue)
                         ),
                     ));
                 }
@@ -857,6 +946,11 @@ impl<'a> World<'a> {
     fn drop_handle(&mut self, j: usize) -> Result<(), Fail> {
         let rh = self.handles.remove(j);
         let me = self.m.handles.remove(j);
+        self.release(rh, me)
+    }
+
+    /// Drop one `Triggered` handle (already taken out of the lists).
+    fn release(&mut self, rh: RealHandle, me: MEntry) -> Result<(), Fail> {
         drop(rh);
         if !me.suspends {
             return Ok(());
@@ -895,6 +989,7 @@ impl<'a> World<'a> {
 
     fn drain(&mut self, pos: usize) -> Result<(), Fail> {
         while self.wait_once(pos)? {}
+        self.m.st.drains += 1;
         Ok(())
     }
 
@@ -975,6 +1070,13 @@ impl<'a> World<'a> {
                 let pos = pick(*b, self.live.len());
                 self.wait_once(pos).map(|_| ())
             }
+            Act::Drain(b) => {
+                if self.live.is_empty() {
+                    return Ok(());
+                }
+                let pos = pick(*b, self.live.len());
+                self.drain(pos)
+            }
             Act::CancelWait(b) => {
                 if self.live.is_empty() {
                     return Ok(());
@@ -1013,8 +1115,12 @@ impl<'a> World<'a> {
         for pos in 0..self.live.len() {
             self.drain(pos)?;
         }
-        while !self.handles.is_empty() {
-            self.drop_handle(0)?;
+        // oldest handle first (as `drop_handle(0)` repeated, without the
+        // quadratic cost when thousands of handles are held)
+        let hs = std::mem::take(&mut self.handles);
+        let ms = std::mem::take(&mut self.m.handles);
+        for (rh, me) in hs.into_iter().zip(ms) {
+            self.release(rh, me)?;
         }
         while !self.live.is_empty() {
             self.drop_barrier(0);
@@ -1055,7 +1161,7 @@ pub fn run(sc: &Scenario) -> Outcome {
     }
     let st = &w.m.st;
     out.nontrivial = st.overlap_hits > 0 || st.late_releases > 0;
-    let classes: [(&str, u32); 16] = [
+    let classes: [(&str, u32); 19] = [
         ("overlap-hit", st.overlap_hits),
         ("late-release", st.late_releases),
         ("delivered", st.delivered),
@@ -1072,6 +1178,9 @@ pub fn run(sc: &Scenario) -> Outcome {
         ("poll-while-suspended", st.spurious_polls),
         ("task-killed", st.kills),
         ("trigger_noop-delivered", st.noop_sync),
+        ("deep: trigger().await delivered onto >=1024 uncollected reports", st.deep_async),
+        ("deep: trigger_noop delivered onto >=1024 uncollected reports", st.deep_sync),
+        ("drain-all", st.drains),
     ];
     for (l, n) in classes {
         if n > 0 {
@@ -1083,6 +1192,22 @@ pub fn run(sc: &Scenario) -> Outcome {
     out.count("triggers unmatched", st.unmatched as u64);
     out.count("late releases", st.late_releases as u64);
     out.count("overlap hits", st.overlap_hits as u64);
+    out.count("triggers delivered onto >=1024 uncollected reports", (st.deep_async + st.deep_sync) as u64);
+    out.label(match st.max_queue {
+        0 => "uncollected high-water 0",
+        1..=8 => "uncollected high-water 1-8",
+        9..=99 => "uncollected high-water 9-99",
+        100..=1023 => "uncollected high-water 100-1023",
+        1024 => "uncollected high-water 1024",
+        1025..=4095 => "uncollected high-water 1025-4095",
+        _ => "uncollected high-water >=4096",
+    });
+    if sc.tasks.iter().flatten().any(|o| matches!(o, TOp::Burst { sync: false, .. })) {
+        out.label("script has an async burst");
+    }
+    if sc.tasks.iter().flatten().any(|o| matches!(o, TOp::Burst { sync: true, .. })) {
+        out.label("script has a trigger_noop burst");
+    }
     if w.m.barriers.iter().filter(|b| b.kind == 0).count() >= 2 {
         out.label(">=2 barriers");
     }
@@ -1101,11 +1226,42 @@ fn arb_kind() -> impl Strategy<Value = u8> {
     prop_oneof![9 => Just(0u8), 1 => Just(1u8)]
 }
 
+/// Burst length: short runs mostly, then a heavy tail around the sizes where
+/// a queue implementation is likely to change behaviour (powers of two and
+/// their neighbours) up to 10 000.  `tail` = weight of the >= 100 part
+/// against 100 for the rest.
+fn arb_burst_len(tail: u32) -> impl Strategy<Value = u16> {
+    prop_oneof![
+        80 => 1u16..=8,
+        20 => 9u16..=99,
+        tail => prop_oneof![
+            4 => Just(100u16),
+            2 => Just(255u16),
+            2 => Just(256u16),
+            2 => Just(257u16),
+            4 => Just(1000u16),
+            4 => Just(1023u16),
+            4 => Just(1024u16),
+            4 => Just(1025u16),
+            3 => 1026u16..=2100,
+            3 => Just(3000u16),
+            1 => Just(4097u16),
+            1 => Just(10_000u16),
+        ],
+    ]
+}
+
+fn arb_burst(tail: u32) -> impl Strategy<Value = TOp> {
+    (arb_kind(), 0u8..4, arb_burst_len(tail), prop_oneof![3 => Just(false), 2 => Just(true)])
+        .prop_map(|(kind, v, n, sync)| TOp::Burst { kind, v, n, sync })
+}
+
 fn arb_top() -> impl Strategy<Value = TOp> {
     prop_oneof![
-        7 => (arb_kind(), 0u8..4).prop_map(|(kind, v)| TOp::Trigger { kind, v }),
-        1 => (arb_kind(), 0u8..4).prop_map(|(kind, v)| TOp::TriggerNoop { kind, v }),
-        2 => Just(TOp::Bump),
+        14 => (arb_kind(), 0u8..4).prop_map(|(kind, v)| TOp::Trigger { kind, v }),
+        2 => (arb_kind(), 0u8..4).prop_map(|(kind, v)| TOp::TriggerNoop { kind, v }),
+        4 => Just(TOp::Bump),
+        2 => arb_burst(3),
     ]
 }
 
@@ -1135,6 +1291,7 @@ fn arb_act() -> impl Strategy<Value = Act> {
         5 => arb_build(),
         8 => any::<u16>().prop_map(Act::Wait),
         1 => any::<u16>().prop_map(Act::CancelWait),
+        1 => any::<u16>().prop_map(Act::Drain),
         5 => any::<u16>().prop_map(Act::DropHandle),
         2 => (any::<u16>(), any::<bool>()).prop_map(|(which, drain)| Act::DropBarrier { which, drain }),
         1 => any::<u16>().prop_map(|i| if i % 4 == 0 { Act::Kill(i) } else { Act::Poll(i) }),
@@ -1154,6 +1311,46 @@ pub fn strategy() -> BoxedStrategy<Scenario> {
         .boxed()
 }
 
+/// `manual-burst`: same scenario type, interpreter and oracle as `manual`,
+/// but the generator concentrates on piles of uncollected reports: scripts
+/// made mostly of bursts, 1-3 barriers built up front (mostly Noop with wide
+/// value sets), short schedules that poll the tasks and collect rarely.
+/// The epilogue of `run` collects ALL reports of every barrier and compares
+/// count and order with the model.
+pub fn strategy_burst() -> BoxedStrategy<Scenario> {
+    let top = prop_oneof![
+        6 => arb_burst(40),
+        2 => (arb_kind(), 0u8..4).prop_map(|(kind, v)| TOp::Trigger { kind, v }),
+        1 => (arb_kind(), 0u8..4).prop_map(|(kind, v)| TOp::TriggerNoop { kind, v }),
+        1 => Just(TOp::Bump),
+    ];
+    let react = prop_oneof![8 => Just(React::Noop), 2 => Just(React::Suspend), 1 => Just(React::Panic)];
+    let set = prop_oneof![
+        3 => Just(vec![0u8, 1, 2, 3]),
+        3 => arb_set(),
+    ];
+    let build = (react, arb_kind(), set).prop_map(|(react, kind, set)| Act::Build { react, kind, set });
+    let act = prop_oneof![
+        12 => any::<u16>().prop_map(Act::Poll),
+        2 => any::<u16>().prop_map(Act::Wait),
+        2 => any::<u16>().prop_map(Act::Drain),
+        2 => any::<u16>().prop_map(Act::DropHandle),
+        1 => arb_build(),
+        1 => (any::<u16>(), any::<bool>()).prop_map(|(which, drain)| Act::DropBarrier { which, drain }),
+        1 => any::<u16>().prop_map(Act::CancelWait),
+    ];
+    (
+        prop::collection::vec(prop::collection::vec(top, 1..5), 1..4),
+        prop::collection::vec(build, 1..4),
+        prop::collection::vec(act, 2..16),
+    )
+        .prop_map(|(tasks, mut pre, acts)| {
+            pre.extend(acts);
+            Scenario { tasks, sched: pre }
+        })
+        .boxed()
+}
+
 // ---------------------------------------------------------------------------
 // Sub-check 2: Sim + fs corruption hook (synchronous trigger_noop path)
 // ---------------------------------------------------------------------------
@@ -1165,7 +1362,13 @@ pub enum FsOp {
     Read { file: u16, kind: u8, off: u8, len: u8 },
     /// sleep one tick (moves the following reads to a later step)
     Sleep,
+    /// the same read `n` times in a row (a read loop): with corruption on,
+    /// up to `n` hook triggers pile up before the test can collect any
+    ReadBurst { file: u16, kind: u8, off: u8, len: u8, n: u16 },
 }
+
+/// Interpreter-side bound on one read burst (replayed / fuzzed input).
+const MAX_READ_BURST: u16 = 12_000;
 
 #[derive(Clone, Debug, Serialize, Deserialize)]
 pub struct FsHost {
@@ -1230,9 +1433,16 @@ async fn fs_host(
         sfs::write(fpath(f), content)?;
     }
     for op in &h.ops {
-        match *op {
-            FsOp::Sleep => tokio::time::sleep(Duration::from_millis(1)).await,
-            FsOp::Read { file, kind, off, len } => {
+        let (file, kind, off, len, reps) = match *op {
+            FsOp::Sleep => {
+                tokio::time::sleep(Duration::from_millis(1)).await;
+                continue;
+            }
+            FsOp::Read { file, kind, off, len } => (file, kind, off, len, 1u16),
+            FsOp::ReadBurst { file, kind, off, len, n } => (file, kind, off, len, n.min(MAX_READ_BURST)),
+        };
+        for _ in 0..reps {
+            {
                 let f = pick(file, h.files.len());
                 let content = &h.files[f];
                 let path = fpath(f);
@@ -1317,6 +1527,9 @@ struct FsBarrier {
     dropped: Option<u32>,
     seen: Vec<Ev>,
     live: bool,
+    /// steps before which the barrier was drained (collects the events of
+    /// all earlier steps)
+    drains: Vec<u32>,
 }
 
 pub fn run_fs(sc: &FsScenario) -> Outcome {
@@ -1386,10 +1599,12 @@ pub fn run_fs(sc: &FsScenario) -> Outcome {
                         dropped: None,
                         seen: Vec::new(),
                         live: true,
+                        drains: Vec::new(),
                     });
                 }
                 FsAct::Drain(i) if !live.is_empty() => {
                     let k = live[pick(*i, live.len())];
+                    bars[k].drains.push(s);
                     if let Err(f) = drain(&mut bars[k]) {
                         fail = Some(f);
                         break 'steps;
@@ -1397,6 +1612,7 @@ pub fn run_fs(sc: &FsScenario) -> Outcome {
                 }
                 FsAct::Drop(i) if !live.is_empty() => {
                     let k = live[pick(*i, live.len())];
+                    bars[k].drains.push(s);
                     if let Err(f) = drain(&mut bars[k]) {
                         fail = Some(f);
                         break 'steps;
@@ -1444,6 +1660,8 @@ pub fn run_fs(sc: &FsScenario) -> Outcome {
     let log = log.borrow();
     let mut usable = true;
     let mut model: Vec<Vec<Ev>> = vec![Vec::new(); bars.len()];
+    // step of every model event (parallel to `model`)
+    let mut model_step: Vec<Vec<u32>> = vec![Vec::new(); bars.len()];
     let (mut events, mut unobserved, mut overlap, mut reads_n0, mut delivered) = (0u64, 0u64, 0u64, 0u64, 0u64);
     if fail.is_none() {
         for r in log.iter() {
@@ -1491,7 +1709,8 @@ pub fn run_fs(sc: &FsScenario) -> Outcome {
                         match matching.first() {
                             Some(&k) => {
                                 delivered += 1;
-                                model[k].push(ev)
+                                model[k].push(ev);
+                                model_step[k].push(r.step);
                             }
                             None => unobserved += 1,
                         }
@@ -1510,16 +1729,63 @@ pub fn run_fs(sc: &FsScenario) -> Outcome {
                 } else {
                     "fs-hook: reported corruption events differ from what the reads experienced"
                 };
+                // first position where the two sequences part, with a window
+                // around it (a barrier can have thousands of events)
+                let at = fb
+                    .seen
+                    .iter()
+                    .zip(model[k].iter())
+                    .position(|(a, b)| a != b)
+                    .unwrap_or(fb.seen.len().min(model[k].len()));
+                let win = |v: &[Ev]| -> String {
+                    let lo = at.saturating_sub(2).min(v.len());
+                    let hi = (at + 4).min(v.len());
+                    format!("[{lo}..{hi}] = {:?}", &v[lo..hi])
+                };
+                let reads: String = if log.len() <= 48 {
+                    format!("{:?}", &*log)
+                } else {
+                    format!("{} reads, first 12: {:?}", log.len(), &log[..12])
+                };
                 fail = Some((
                     sig.into(),
                     format!(
-                        "barrier #{k} (files {:?}, created before step {}, dropped before step {:?}): reported {:?}, reads experienced {:?}; read log {:?}",
-                        fb.files, fb.created, fb.dropped, fb.seen, model[k], &*log
+                        "barrier #{k} (files {:?}, created before step {}, dropped before step {:?}): reported {} event(s), reads experienced {}; sequences part at index {at}: reported{}, experienced{}; read log {reads}",
+                        fb.files,
+                        fb.created,
+                        fb.dropped,
+                        fb.seen.len(),
+                        model[k].len(),
+                        win(&fb.seen),
+                        win(&model[k]),
                     ),
                 ));
                 break;
             }
         }
+    }
+    // largest number of events one barrier had to hold before a drain
+    // collected them (model side)
+    let mut max_batch = 0usize;
+    for (k, fb) in bars.iter().enumerate() {
+        let mut from = 0usize;
+        for d in fb.drains.iter().copied().chain(std::iter::once(u32::MAX)) {
+            let upto = from + model_step[k][from..].iter().take_while(|&&st| st < d).count();
+            max_batch = max_batch.max(upto - from);
+            from = upto;
+        }
+    }
+    out.label(match max_batch {
+        0 => "fs: uncollected high-water 0",
+        1..=8 => "fs: uncollected high-water 1-8",
+        9..=99 => "fs: uncollected high-water 9-99",
+        100..=1023 => "fs: uncollected high-water 100-1023",
+        1024 => "fs: uncollected high-water 1024",
+        1025..=4095 => "fs: uncollected high-water 1025-4095",
+        _ => "fs: uncollected high-water >=4096",
+    });
+    if sc.hosts.iter().any(|h| h.ops.iter().any(|o| matches!(o, FsOp::ReadBurst { .. }))) {
+        out.label("fs: read burst");
     }
     out.nontrivial = delivered > 0 && (unobserved > 0 || overlap > 0);
     out.count("fs: corruption events experienced by reads", events);
@@ -1566,8 +1832,12 @@ pub fn run_fs(sc: &FsScenario) -> Outcome {
 
 fn arb_fsop() -> impl Strategy<Value = FsOp> {
     prop_oneof![
-        5 => (any::<u16>(), 0u8..6, 0u8..20, 0u8..20).prop_map(|(file, kind, off, len)| FsOp::Read { file, kind, off, len }),
-        3 => Just(FsOp::Sleep),
+        10 => (any::<u16>(), 0u8..6, 0u8..20, 0u8..20).prop_map(|(file, kind, off, len)| FsOp::Read { file, kind, off, len }),
+        6 => Just(FsOp::Sleep),
+        // mostly reads that start inside the file (off small, len >= 1) so
+        // that a burst really produces events
+        1 => (any::<u16>(), 0u8..6, prop_oneof![3 => Just(0u8), 1 => 0u8..20], 1u8..20, arb_burst_len(25))
+            .prop_map(|(file, kind, off, len, n)| FsOp::ReadBurst { file, kind, off, len, n }),
     ]
 }
 
@@ -1611,15 +1881,17 @@ fn check(tier: Tier, seed: u64) -> i32 {
     let ctx = Ctx::new("C20", tier, seed, "exploration");
     ctx.replay_corpus(&replay);
     ctx.random("manual", tier.pick(400_000, 6_000_000), &|| strategy(), &run);
+    ctx.random("manual-burst", tier.pick(30_000, 450_000), &|| strategy_burst(), &run);
     ctx.random("fs-hook", tier.pick(40_000, 600_000), &|| strategy_fs(), &run_fs);
     ctx.finish(
-        "manual: 1-4 hand-polled trigger tasks (scripts of trigger().await / trigger_noop() / progress bumps over 4 values x 2 trigger types) interleaved by a generated schedule with test actions (build barrier with Noop/Suspend/Panic reaction and a value-set condition, poll wait(), cancel a pending wait(), drop a reported handle, drop a barrier with or without draining it, cancel a task); a registry-list model (earliest-created live matching barrier receives the trigger, only it) is stepped in lock-step and compared after every action (task progress, panics, reported values and order, wake-ups), and an epilogue drains every barrier, drops everything and requires every remaining task to finish in one poll. Non-trivial = at least one trigger matched >= 2 live barriers at once, or a Suspend handle was dropped after the suspended task had been polled again at least once while held. fs-hook: Sim with corruption_probability 1.0/0.5/0.25, 1-2 hosts reading 1-3 files through six std/tokio shim read paths, Barrier<FsCorruption> built/drained/dropped between steps; non-trivial = an event was delivered and (another event had no live matching barrier or two live barriers overlapped). Distinct by scenario hash.",
+        "manual: 1-4 hand-polled trigger tasks (scripts of trigger().await / trigger_noop() / progress bumps / bursts of n identical async or synchronous triggers in a row, over 4 values x 2 trigger types; burst length 1-8 mostly, then 9-99 and a heavy tail 100, 255-257, 1000, 1023, 1024, 1025, ..2100, 3000, 4097, 10 000) interleaved by a generated schedule with test actions (build barrier with Noop/Suspend/Panic reaction and a value-set condition, poll wait(), cancel a pending wait(), drop a reported handle, drop a barrier with or without draining it, collect all reports of a barrier, cancel a task); a registry-list model (earliest-created live matching barrier receives the trigger, only it) is stepped in lock-step and compared after every action (task progress, panics, reported values and order, wake-ups), and an epilogue collects ALL remaining reports of every barrier (count and order against the model queues), drops everything and requires every remaining task to finish in one poll. Non-trivial = at least one trigger matched >= 2 live barriers at once, or a Suspend handle was dropped after the suspended task had been polled again at least once while held. manual-burst: same interpreter and oracle, generator concentrated on piles of uncollected reports (scripts mostly bursts, 1-3 barriers built up front, mostly Noop with wide sets, short schedules that collect rarely); the class labels give the largest number of uncollected reports on one barrier and the async / trigger_noop deliveries made onto >= 1024 uncollected reports. fs-hook: Sim with corruption_probability 1.0/0.5/0.25, 1-2 hosts reading 1-3 files through six std/tokio shim read paths (single reads and read loops of 1-10 000 identical reads), Barrier<FsCorruption> built/drained/dropped between steps; non-trivial = an event was delivered and (another event had no live matching barrier or two live barriers overlapped). Distinct by scenario hash.",
         &[
             "panic messages checked are the ones pinned by crates/turmoil/tests/barriers.rs (should_panic expected strings)",
             "a task suspended on a trigger whose barrier is dropped before wait() reported it is outside the property (no handle was ever reported): the model follows whatever the implementation does with that task",
             "trigger_noop against a Suspend barrier is generated only as an expected-panic step of a task (documented panic), never from the fs hook",
             "fs-hook: reads detect corruption themselves by comparing with the known file contents; exactly one differing byte = one corruption event at offset read_offset+index, len 1",
             "fs-hook: only the turmoil-fs shim read paths are exercised; io_uring ring reads do not fire the hook (TODO in turmoil-io-uring/src/sim.rs) and make no trigger call, so they are outside this property",
+            "no bound on the number of uncollected reports per barrier is documented (barriers rustdoc: Noop = 'source code continues immediately after trigger', trigger_noop = 'notify barriers about events without suspending execution'; property: 'a Noop barrier never blocks it', 'reported exactly once'), so the model queues are unbounded; bursts are capped at 12 000 triggers and 40 000 expanded steps per task",
             "futures are polled outside a tokio runtime (no coop budget), one thread per worker, registry is thread-local",
         ],
     )
